@@ -28,7 +28,12 @@ REACH_MIN = {"messages_delivered": {"quick": 4000, "thorough": 120000},
 
 def cases(tier, seed):
     n = {"quick": 360, "thorough": 10000}[tier]
-    return [dict(seed=seed * 1000003 + 200000 + i, profile="stream") for i in range(n)]
+    out = [dict(seed=seed * 1000003 + 200000 + i, profile="stream") for i in range(n)]
+    # a stopped (or shut down) consumer that is started again must deliver again: shutdown() whose final commit the
+    # coordinator refuses, then a restart of the same object
+    nr = {"quick": 40, "thorough": 1200}[tier]
+    out += [dict(seed=seed * 1000003 + 250000 + i, profile="restart_after_refused_shutdown") for i in range(nr)]
+    return out
 
 
 def check_stream(res, tr, allow_failures=True):
@@ -246,7 +251,36 @@ def check(res, tr):
                                  for c_ in tr.calls][:10])
 
 
+def run_restart(spec):
+    """Uses C13's stop-point machinery; only the clauses about delivery after the restart belong to this property."""
+    import random as _r
+    from . import c13
+    res = Result()
+    sc = cons.gen_scenario(spec["seed"], "stop")
+    sc["actions"] = [a for a in sc["actions"] if a[1] == "commit"]
+    base = c13.run_once(sc)
+    rng = _r.Random(spec["seed"] ^ 0x2E57)
+    pts = [(rng.choice(ks), name) for name, ks in sorted(base.info["survey"].items())
+           if name in ("processor_pending", "fetch_outstanding", "reply_parked", "commit_in_flight")]
+    for k, name in pts[:2]:
+        code = rng.choice((7, 12, 22, 2))
+        tr = c13.run_once(sc, stop_at=k, how="shutdown", restart_after=rng.choice((3.0, 5.0)), commit_fail=code)
+        tr.info["restart_after"] = 3.0
+        full = Result()
+        c13.check(full, tr, "shutdown_commit_refused")
+        res.hit("restarts_after_refused_shutdown")
+        for v in full.violations:
+            if v["key"].startswith("restart-wedged") or v["key"].startswith("stream/") or v["key"].startswith("overlap/"):
+                res.violate("restart/" + v["key"], v["msg"], situation=name, commit_error=code, **v["witness"])
+        res.ob("restarted_consumer_delivers", 1)
+        res.sigs.add(sig("restart", spec["seed"], k, code, name))
+    res.n_sub += 1
+    return res
+
+
 def run(spec):
+    if spec.get("profile") == "restart_after_refused_shutdown":
+        return run_restart(spec)
     res = Result()
     sc = cons.gen_scenario(spec["seed"], spec.get("profile", "stream"))
     tr = cons.run_scenario(sc)
